@@ -244,7 +244,7 @@ def call_model(c, t, at, edge):
         return S({})
     # ---------------------------------------------------------------- iterator plumbing (items are modelled at `next`)
     if short in ("into_iter", "iter", "iter_mut", "enumerate", "rev", "copied", "cloned", "by_ref", "take", "skip", "zip", "chain", "map", "filter", "peekable",
-                 "flat_map", "filter_map", "take_while", "skip_while", "fuse", "inspect"):
+                 "flat_map", "filter_map", "take_while", "skip_while", "fuse", "inspect") and not ("option::Option" in name and short in ("filter", "map", "take", "zip", "copied", "cloned", "inspect")):
         sq = seq_of(c, t, at, edge, site)
         if sq is not None:
             return sq          # an iterator is abstracted by the sequence it yields: (how many items, what an item looks like)
@@ -505,6 +505,16 @@ def call_model(c, t, at, edge):
             return R(v)
         return c.top_for(t)
     if name.endswith("LocalKey::with"):
+        return c.top_for(t)
+    if short == "filter" and len(args) == 2 and "Option" in name:
+        # Some(v).filter(p) is Some(v) or None; the predicate sees &v
+        a = av(args[0])
+        path_, ct_ = closure_of(c, args[1])
+        pl = variant_payload(a, "Some") if a[0] == "e" else None
+        if path_ and pl is not None:
+            call_closure(c, path_, ct_, [R(pl)], at, edge, site)
+        if a[0] == "e":
+            return join(a, E({"None": S({})}))
         return c.top_for(t)
     if short == "try_from" and len(args) == 1 and "TryFrom<" in name:
         # integer TryFrom: Ok(x) exactly when x fits the target type, else Err
